@@ -2,7 +2,9 @@ import OdakProofs.Lemmas.Colour
 import OdakProofs.Lemmas.GenColourHsv
 import OdakProofs.Lemmas.GenColourLab
 import OdakProofs.Lemmas.GenColourLab2
+import OdakProofs.Lemmas.GenColourLab3
 import OdakProofs.Lemmas.GenColourLms
+import OdakProofs.Lemmas.LabRoundTrip
 
 /-! # C15 – colour-space conversions invert each other and match the published standards
   The per-pixel conversion functions are regenerated from `/repo`
@@ -472,5 +474,52 @@ example : ∃ (pinv : Tensor ℝ → Tensor ℝ) (L : Tensor ℝ), L.shape = [3,
   · intro h
     have := congrArg Mat3.a00 h
     simp [matOf, Tensor.ofFlat, Tensor.ravel, Tensor.prod, Mat3.one] at this
+
+/-! ## sRGB → Lab → sRGB -/
+
+/-- sRGB → L*a*b* → sRGB returns every in-gamut colour within `10⁻⁶` per channel (exact real arithmetic).  The cube root / cube
+    pair with their linear toes and the `L* a* b*` affine maps cancel exactly; the two 3x3 matrices and the two white points of the
+    source are rounded inverses of each other (`≤ 5.5·10⁻⁸` on linear light); `linear_rgb_to_rgb` amplifies that by at most 12.92
+    plus its `3·10⁻⁸` knee jump; the sRGB transfer pair is exact except on the sliver between its two knees (`≤ 1.6·10⁻⁷`). -/
+theorem C15_lab_roundtrip (c : Vec3 ℝ) (hx : 0 ≤ c.x ∧ c.x ≤ 1) (hy : 0 ≤ c.y ∧ c.y ≤ 1) (hz : 0 ≤ c.z ∧ c.z ≤ 1) :
+    |(labToSrgb (srgbToLab c)).x - c.x| ≤ 1 / 1000000 ∧
+    |(labToSrgb (srgbToLab c)).y - c.y| ≤ 1 / 1000000 ∧
+    |(labToSrgb (srgbToLab c)).z - c.z| ≤ 1 / 1000000 := by
+  have h0 : srgbToLinear (0 : ℝ) = 0 := by rw [srgbToLinear_lower (by norm_num)]; norm_num
+  have h1 : srgbToLinear (1 : ℝ) = 1 := by
+    rw [srgbToLinear_upper (by norm_num)]
+    have : ((1 : ℝ) + 0.055) / 1.055 = 1 := by norm_num
+    rw [this, Real.log_one, mul_zero, Real.exp_zero]
+  have hm := C15_srgb_to_linear_strictMono.monotone
+  have unit : ∀ t : ℝ, 0 ≤ t ∧ t ≤ 1 → 0 ≤ srgbToLinear t ∧ srgbToLinear t ≤ 1 := fun t ht =>
+    ⟨h0 ▸ hm ht.1, h1 ▸ hm ht.2⟩
+  rw [lab_roundtrip_structure]
+  obtain ⟨e1, e2, e3⟩ := lab_linear_error ⟨srgbToLinear c.x, srgbToLinear c.y, srgbToLinear c.z⟩ (unit _ hx) (unit _ hy) (unit _ hz)
+  simp only [] at e1 e2 e3 ⊢
+  have fin : ∀ r l t : ℝ, |r - l| ≤ 55 / 1000000000 → l = srgbToLinear t → |linearToSrgb r - t| ≤ 1 / 1000000 := by
+    intro r l t hr hl
+    have a := linearToSrgb_lipschitz l r
+    have b := srgb_roundtrip_error t
+    rw [← hl] at b
+    have tri := abs_sub_le (linearToSrgb r) (linearToSrgb l) t
+    have : 12.92 * |r - l| ≤ 12.92 * (55 / 1000000000) := mul_le_mul_of_nonneg_left hr (by norm_num)
+    norm_num at this a b ⊢
+    linarith
+  exact ⟨fin _ _ _ e1 rfl, fin _ _ _ e2 rfl, fin _ _ _ e3 rfl⟩
+
+/-- … and so do whole images through the regenerated tensor-level functions, in both layouts (the result of `srgb_to_lab` is
+    channel-first, so an image exactly 3 pixels wide would be re-read as channel-last by `lab_to_srgb`: `n ≠ 3`) -/
+theorem C15_gen_lab_roundtrip_image (img : Tensor ℝ) (m n : Nat) (hn : n ≠ 3) (i j : Nat) (hi : i < m) (hj : j < n)
+    (p : Vec3 ℝ) (hp : (img.shape = [3, m, n] ∧ p = pixel3 img i j) ∨ (img.shape = [m, n, 3] ∧ p = pixelLast img i j))
+    (hx : 0 ≤ p.x ∧ p.x ≤ 1) (hy : 0 ≤ p.y ∧ p.y ≤ 1) (hz : 0 ≤ p.z ∧ p.z ≤ 1) :
+    |(pixel3 (GenT.lab_to_srgb (GenT.srgb_to_lab img)) i j).x - p.x| ≤ 1 / 1000000 ∧
+    |(pixel3 (GenT.lab_to_srgb (GenT.srgb_to_lab img)) i j).y - p.y| ≤ 1 / 1000000 ∧
+    |(pixel3 (GenT.lab_to_srgb (GenT.srgb_to_lab img)) i j).z - p.z| ≤ 1 / 1000000 := by
+  have key : (GenT.srgb_to_lab img).shape = [3, m, n] ∧ pixel3 (GenT.srgb_to_lab img) i j = srgbToLab p := by
+    rcases hp with ⟨h, rfl⟩ | ⟨h, rfl⟩
+    · exact srgb_to_lab_layout_first img m n h hn i j hi hj
+    · exact srgb_to_lab_layout_last img m n h i j hi hj
+  rw [(lab_to_srgb_layout_first _ m n key.1 hn i j hi hj).2, key.2]
+  exact C15_lab_roundtrip p hx hy hz
 
 end Odak
